@@ -147,7 +147,7 @@ func c14rtRun(r *vfRand, c *c14rtCase, tr *zzc14.Trace) (*zzc14.Plan, string) {
 				op.At = at
 			}
 			op.Run = func() error {
-				for k := 0; k < 40; k++ {
+				for k := 0; k < 150; k++ {
 					m.Refresh(false)
 					runtime.Gosched()
 				}
@@ -183,7 +183,7 @@ func c14rtGen(r *vfRand, i int) *c14rtCase {
 	for j := 0; j < n; j++ {
 		c.ops = append(c.ops, names[r.Intn(len(names))])
 	}
-	if r.Chance(35) {
+	if r.Chance(50) {
 		c.ops = append(c.ops, "burst")
 	}
 	if c.start == 2 {
